@@ -54,6 +54,7 @@ type C02Exec struct {
 	Writer   int    `json:"writer_kind,omitempty"` // destination of the FRender forms (see WriterKind)
 	Jump     int64  `json:"clock_jump_s,omitempty"`
 	Again    bool   `json:"repeat,omitempty"`
+	Reconf   bool   `json:"reconfigured_engine,omitempty"` // engine first used with other delimiters, then given this configuration
 	CLI      bool   `json:"cli,omitempty"`
 }
 
@@ -216,6 +217,18 @@ func (x *c02Run) exec(ex *C02Exec) Res {
 		return x.execCLI()
 	}
 	e := x.engine(ex.History)
+	if ex.Reconf {
+		// an engine that was used with OTHER delimiters first and only then given the
+		// case's delimiters must behave like one configured up front
+		e = NewEngine(EngCfg{Strict: x.cs.Cfg.Strict, Delims: []string{"(:", ":)", "(!", "!)"}})
+		e.ParseString("(: 1 :)(! if true !)x(! endif !)")
+		d := x.cs.Cfg.Delims
+		if len(d) != 4 {
+			d = []string{"{{", "}}", "{%", "%}"}
+		}
+		e.Delims(d[0], d[1], d[2], d[3])
+		x.cs.Cfg.apply()
+	}
 	b := x.b0
 	if ex.Rebuild != 0 {
 		br := NewRng(ex.Rebuild)
@@ -299,6 +312,7 @@ func c02Plan(r *Rng, cs *C02Case) (canon *C02Exec, vars []struct {
 		}{dim, &e})
 	}
 	add("repeat", func(e *C02Exec) { e.Again = true })
+	add("engine-reconfigured", func(e *C02Exec) { e.Reconf = true })
 	add("map-order", func(e *C02Exec) { e.Order = simrt.OrderDesc })
 	add("map-order", func(e *C02Exec) { e.Order, e.Param = simrt.OrderRotate, uint64(r.Range(1, 11)) })
 	add("map-order", func(e *C02Exec) { e.Order, e.Param = simrt.OrderShuffle, r.U64() })
